@@ -8,7 +8,7 @@ PROP = "C08"
 DIR = None
 DIRS = ["A", "AB", "A/B", "A/B/C"]
 DIRS_X = DIRS + ["A/B/C/D", "E"]
-FMT = {".hid": ["md5"], ".hid/.in": ["sha1"], "..two": ["xxh64"], "": ["xxh64"], "A": ["md5"], "AB": ["xxh64"], "A/B": ["sha1"], "A/B/C": ["c4"], "A/B/C/D": ["md5", "xxh3"], "E": ["md5"]}
+FMT = {"day1/cardA": ["md5"], "day2/cardA": ["md5"], ".hid": ["md5"], ".hid/.in": ["sha1"], "..two": ["xxh64"], "": ["xxh64"], "A": ["md5"], "AB": ["xxh64"], "A/B": ["sha1"], "A/B/C": ["c4"], "A/B/C/D": ["md5", "xxh3"], "E": ["md5"]}
 
 
 def base_tree(dirs):
@@ -28,7 +28,7 @@ def enabled(tree, meta):
     med = ref.media(tree)
     m2 = dict(meta, cmds=meta["cmds"] + 1)
     cont = meta["cmds"] + 1 < meta["max_cmds"]
-    dirs = sorted(p for p, c in med.items() if c is DIR)
+    dirs = sorted(p for p, c in med.items() if c is DIR and (not meta.get("roots") or p in meta["roots"]))
     for d in dirs:
         out.append((ops.create(d, FMT[d]), m2, cont))
         kids = sorted(p for p in dirs if ref.parent(p) == d)
@@ -225,6 +225,8 @@ def main(tier, seed):
     runs = []
     plans.append(dict(dirs=["A", "E"], max_cmds=3, ignores=False))
     plans.append(dict(dirs=[".hid", ".hid/.in", "..two"], max_cmds=3, ignores=False))   # nested roots whose names start with dots   # E: a nested root without any entry below it
+    # nested roots with the SAME folder name in different places (their manifests of one run carry the same file name)
+    plans.append(dict(dirs=["day1", "day1/cardA", "day2", "day2/cardA"], roots=["day1/cardA", "day2/cardA"], max_cmds=4, ignores=False))
     plans += [dict(dirs=DIRS, max_cmds=3 if tier == "quick" else 4, spell=sp) for sp in ("slash", "dot", "symlink")]   # root spelled 'dir/', '.'
     for pl in plans:
         meta = dict(alpha="c08", oracles=["c08"], cmds=0, observe=True, max_cmds=pl["max_cmds"], rich=pl.get("rich", False))
@@ -232,6 +234,8 @@ def main(tier, seed):
             meta["spell"] = pl["spell"]
         if "ignores" in pl:
             meta["ignores"] = pl["ignores"]
+        if pl.get("roots"):
+            meta["roots"] = pl["roots"]
         r = engine.bfs(eng, e1.expand, [(base_tree(pl["dirs"]), meta, "tree:" + ",".join(pl["dirs"]))],
                        max_depth=pl["max_cmds"], label=ops.label, state_cap=300000)
         runs.append(dict(dirs=pl["dirs"], max_cmds=pl["max_cmds"], **r))
